@@ -364,6 +364,12 @@ func (r *Runner) seedPods(set string, o SetOpts) {
 			}
 		}
 	}
+	// strangers: unowned pods with the set's labels whose names only look like the set's pod names
+	if r.Cfg.Foreign && r.chance(0.15) {
+		for k := 0; k < 1+r.Rng.Intn(2); k++ {
+			r.seedStranger(set, s)
+		}
+	}
 	// claims of absent ordinals: left behind by an earlier scale-in, some of them being deleted
 	// (held by the pvc-protection finalizer)
 	for ord := 0; ord <= r.Cfg.MaxOrd && len(o.Claims) > 0; ord++ {
@@ -626,6 +632,36 @@ func (r *Runner) userEdit() {
 	}
 }
 
+// strangerName: a valid pod name that is not <set>-<ordinal> but close to it.
+func (r *Runner) strangerName(set string) string {
+	ord := r.Rng.Intn(r.Cfg.MaxOrd + 1)
+	switch r.Rng.Intn(5) {
+	case 0:
+		return fmt.Sprintf("%s-%d-debug", set, ord)
+	case 1:
+		return fmt.Sprintf("x%s-%d", set, ord)
+	case 2:
+		return fmt.Sprintf("%s--%d", set, ord)
+	case 3:
+		return fmt.Sprintf("%s-%dx", set, ord)
+	default:
+		return fmt.Sprintf("%s-%d-%d.a", set, ord, ord)
+	}
+}
+
+func (r *Runner) seedStranger(set string, s *asv1.StatefulSet) {
+	name := r.strangerName(set)
+	if r.W.GetPod(name) != nil {
+		return
+	}
+	po := PodOpts{Name: name, Labels: s.Spec.Selector.MatchLabels, SetName: set, Ordinal: r.Rng.Intn(r.Cfg.MaxOrd + 1), Phase: corev1.PodRunning, Scheduled: true, Ready: true, PodNameLbl: name}
+	if revs := r.revisionsOf(set); len(revs) > 0 {
+		po.Revision, po.TemplateV = revs[0].Name, revs[0].V
+	}
+	r.W.Srv.Seed(simapi.Pods, NewPod(po))
+	r.logf("   stranger pod %s (unowned, matching labels, not a pod name of the set)", name)
+}
+
 func (r *Runner) userPodOp() {
 	w := r.W
 	p := r.pick(w.PodNames())
@@ -654,6 +690,10 @@ func (r *Runner) userPodOp() {
 		set := r.pick(r.Sets)
 		s := w.GetSet(set)
 		if s == nil {
+			return
+		}
+		if r.chance(0.25) {
+			r.seedStranger(set, s)
 			return
 		}
 		ord := r.Rng.Intn(r.Cfg.MaxOrd + 1)
